@@ -23,6 +23,8 @@ VERIF = scratch.VERIF
 # entries: (obligation regex, crate dir | append:<file>, package, witness file, test filter[, property]); first match wins;
 # an entry with a 6th element applies only when the check runs for that property
 WITNESS = [
+    (r"search_abort::SearchFragA::abort_after_child_fragment", "engine_core", "inkayaku_engine_core", "c11_horizon.rs", "witness_c11_horizon", "C05"),
+    (r"search_abort::SearchFragA::abort_after_child_fragment", "engine_core", "inkayaku_engine_core", "c11_horizon.rs", "witness_c11_horizon", "C11"),
     (r"search_rep::SearchFrag::repetition_fragment", "engine_core", "inkayaku_engine_core", "c11_repetition_flip.rs", "witness_c11_flip", "C11"),
     (r"uci_moves::Bitboard::san_suffix_fragment", "board", "inkayaku_board", "c05_check_detection.rs", "witness_c05_san"),
     (r"board_make::(Move::|Bitboard::)", "board", "inkayaku_board", "c03_make_unmake.rs", "witness_"),
